@@ -276,7 +276,7 @@ impl Prop for C17 {
         "C17"
     }
     fn units(&self, tier: Tier) -> Vec<Unit> {
-        vec![Unit::new("batches", if tier == Tier::Quick { 6_000 } else { 120_000 })]
+        vec![Unit::new("batches", if tier == Tier::Quick { 20_000 } else { 300_000 })]
     }
     fn run_unit(&self, unit: &Unit, cases: u32, seed: u64, stats: &mut Stats) -> Option<Failure> {
         run_proptest(&unit.name, case_strategy(), cases, seed, 300, stats, |c| guarded("C17", || run(c)))
